@@ -520,3 +520,8 @@ Lemma D2_trans2 : Dtrans2 boxdist2.
 Proof. intros b v p. unfold boxdist2; cbn. rewrite !axd_shift. reflexivity. Qed.
 Lemma D2_trans3 : Dtrans3 boxdist3.
 Proof. intros b v p. unfold boxdist3; cbn. rewrite !axd_shift. reflexivity. Qed.
+
+(* like kinv, but without the normalisation `injection` performs on the object *)
+Lemma some_inj {A} (x y : A) : Some x = Some y -> x = y.
+Proof. intros H; injection H; auto. Qed.
+Ltac kinv' H := kchecks H; apply some_inj in H; rewrite <- H; clear H.
